@@ -36,72 +36,115 @@ theorem set_lateEq {g : Graph} {s s' : S} {id : Nat} {new : St} (h : set g s id 
     · intro e; rw [e] at hprev; exact absurd hx hprev
   · rw [upd_other _ _ _ _ e]
 
+/-- Both outcomes that carry a state (success, or an error such as a dependency cycle raised
+    part-way) leave the late states as they were. -/
+def WR.lateEq {α} (s : S) : WR α → Prop
+  | .ok _ s' => LateEq s s'
+  | .err _ s' => LateEq s s'
+  | .bad _ => True
+
 theorem want_lateEq (g : Graph) : ∀ fuel : Nat,
-    (∀ s stack f r s', wantFile g fuel s stack f = .ok (r, s') → LateEq s s') ∧
-    (∀ s stack id r s', wantBuild g fuel s stack id = .ok (r, s') → LateEq s s') ∧
-    (∀ s stack fs rd r s', wantIns g fuel s stack fs rd = .ok (r, s') → LateEq s s') ∧
-    (∀ s fs s', wantVals g fuel s fs = .ok s' → LateEq s s') := by
+    (∀ s stack f, (wantFile g fuel s stack f).lateEq s) ∧
+    (∀ s stack id, (wantBuild g fuel s stack id).lateEq s) ∧
+    (∀ s stack fs rd, (wantIns g fuel s stack fs rd).lateEq s) ∧
+    (∀ s fs, (wantVals g fuel s fs).lateEq s) := by
   intro fuel
   induction fuel with
-  | zero => refine ⟨?_, ?_, ?_, ?_⟩ <;> intros <;> simp_all [wantFile, wantBuild, wantIns, wantVals]
+  | zero => refine ⟨?_, ?_, ?_, ?_⟩ <;> intros <;> simp [wantFile, wantBuild, wantIns, wantVals, WR.lateEq]
   | succ fuel ih =>
     obtain ⟨ihF, ihB, ihI, ihV⟩ := ih
     refine ⟨?_, ?_, ?_, ?_⟩
-    · intro s stack f r s' h
-      unfold wantFile at h
-      split at h
-      · cases h
-      · split at h
-        · cases h; exact LateEq.refl _
-        · split at h <;> try cases h
-          rename_i hb
-          exact ihB _ _ _ _ _ hb
-    · intro s stack id r s' h
-      unfold wantBuild at h
-      split at h
-      · cases h; exact LateEq.refl _
+    · intro s stack f
+      unfold wantFile
+      split
+      · exact LateEq.refl _
+      · split
+        · exact LateEq.refl _
+        · have := ihB s (stack ++ [f]) ‹Nat›
+          split <;> rename_i hb <;> rw [hb] at this <;> simpa [WR.lateEq] using this
+    · intro s stack id
+      unfold wantBuild
+      split
+      · exact LateEq.refl _
       · rename_i hunk
         simp at hunk
-        split at h <;> try cases h
-        rename_i rd s1 hi
-        have e1 := ihI _ _ _ _ _ _ hi
-        have hprev : ¬ late (s1.st id) := by
-          intro hl
-          have := (e1.1 id (s1.st id) hl).mp rfl
-          rw [hunk] at this
-          rw [← this] at hl
-          simp [late] at hl
-        simp only [] at h
-        generalize hstate : (if rd = true then St.ready else St.want) = state at h
-        have hnew : state = .want ∨ state = .ready := by rw [← hstate]; split <;> simp
-        split at h <;> try cases h
-        rename_i s2 hs
-        split at h <;> try cases h
-        rename_i s3 hv
-        have e2 := set_lateEq hs hnew hprev
-        exact (e1.trans e2).trans (ihV _ _ _ hv)
-    · intro s stack fs rd r s' h
+        have hi := ihI s stack (g.build id).ordering true
+        split
+        · rename_i rd s1 hins
+          rw [hins] at hi
+          simp only [WR.lateEq] at hi
+          have hprev : ¬ late (s1.st id) := by
+            intro hl
+            have := (hi.1 id (s1.st id) hl).mp rfl
+            rw [hunk] at this
+            rw [← this] at hl
+            simp [late] at hl
+          simp only []
+          generalize hstate : (if rd = true then St.ready else St.want) = state
+          have hnew : state = .want ∨ state = .ready := by rw [← hstate]; split <;> simp
+          split
+          · rename_i s2 hs
+            have e2 := set_lateEq hs hnew hprev
+            have hv := ihV s2 (g.build id).validation
+            split <;> rename_i hvv <;> rw [hvv] at hv
+            · exact (hi.trans e2).trans hv
+            · exact (hi.trans e2).trans hv
+            · trivial
+          · trivial
+          · trivial
+        · rename_i m s1 hins
+          rw [hins] at hi; exact hi
+        · trivial
+    · intro s stack fs rd
       cases fs with
-      | nil => simp only [wantIns] at h; cases h; exact LateEq.refl _
+      | nil => simp only [wantIns]; exact LateEq.refl _
       | cons f fs =>
-        simp only [wantIns] at h
-        split at h <;> try cases h
-        rename_i r1 s1 hf
-        exact (ihF _ _ _ _ _ hf).trans (ihI _ _ _ _ _ _ h)
-    · intro s fs s' h
+        simp only [wantIns]
+        have hf := ihF s stack f
+        split <;> rename_i hff <;> rw [hff] at hf
+        · rename_i r s'
+          have h2 := ihI s' stack fs (rd && r)
+          revert h2
+          cases wantIns g fuel s' stack fs (rd && r) with
+          | ok a s2 => intro h2; exact LateEq.trans hf h2
+          | err m s2 => intro h2; exact LateEq.trans hf h2
+          | bad m => intro _; trivial
+        · exact hf
+        · trivial
+    · intro s fs
       cases fs with
-      | nil => simp only [wantVals] at h; cases h; exact LateEq.refl _
+      | nil => simp only [wantVals]; exact LateEq.refl _
       | cons f fs =>
-        simp only [wantVals] at h
-        split at h <;> try cases h
-        rename_i r1 s1 hf
-        exact (ihF _ _ _ _ _ hf).trans (ihV _ _ _ h)
+        simp only [wantVals]
+        have hf := ihF s [] f
+        split <;> rename_i hff <;> rw [hff] at hf
+        · rename_i r s'
+          have h2 := ihV s' fs
+          revert h2
+          cases wantVals g fuel s' fs with
+          | ok a s2 => intro h2; exact LateEq.trans hf h2
+          | err m s2 => intro h2; exact LateEq.trans hf h2
+          | bad m => intro _; trivial
+        · exact hf
+        · trivial
 
 /-- `Work::want_file` never changes which builds are queued, running, done or failed. -/
-theorem want_lateEq' (g : Graph) (s s' : S) (f : Nat) (h : want g s f = .ok s') : LateEq s s' := by
+theorem want_lateEq' (g : Graph) (s s' : S) (f : Nat) (h : want g s f = .ok () s') : LateEq s s' := by
   unfold want at h
-  split at h <;> try cases h
-  rename_i r s1 hw
-  exact (want_lateEq g _).1 _ _ _ _ _ hw
+  have := (want_lateEq g (wantFuel g)).1 s [] f
+  split at h <;> rename_i hw
+  · cases h; rw [hw] at this; exact this
+  · cases h
+  · cases h
+
+/-- ... also when it fails part-way (e.g. with a dependency cycle). -/
+theorem want_lateEq_err (g : Graph) (s s' : S) (f : Nat) (m : String) (h : want g s f = .err m s') :
+    LateEq s s' := by
+  unfold want at h
+  have := (want_lateEq g (wantFuel g)).1 s [] f
+  split at h <;> rename_i hw
+  · cases h
+  · cases h; rw [hw] at this; exact this
+  · cases h
 
 end N2V.Sched
